@@ -355,6 +355,7 @@ func (p *Parser) matchedArithm(lpos Pos, left, right token) {
 func (p *Parser) arithmEnd(ltok token, lpos Pos, old saveState) Pos {
 	if !p.peekArithmEnd() {
 		if p.recoverError() {
+			p.postNested(old)
 			return recoveredPos
 		}
 		p.arithmMatchingErr(lpos, ltok, dblRightParen)
